@@ -44,8 +44,8 @@ def base_consts(**kw):
     return c
 
 
-def harness_cfg(consts, seed, codec="cbor", audit=""):
-    return {"NR": consts["NR"], "Writer0": list(consts["Writer0"]), "Lid": list(consts["Lid"]),
+def harness_cfg(consts, seed, codec="cbor", audit="", concurrency=0):
+    return {"Concurrency": concurrency, "NR": consts["NR"], "Writer0": list(consts["Writer0"]), "Lid": list(consts["Lid"]),
             "Fn": consts["Fn"], "Denied": [sorted(d) for d in consts["Denied"]], "Codec": codec, "Seed": seed,
             "Audit": audit}
 
@@ -219,7 +219,7 @@ def run_family_l(prop, tier, seed, report, scratch, binpath, plans):
             (plan["name"], res.generated, res.distinct, time.time() - t0, len(scripts)))
         if not scripts:
             raise Inconclusive("TLC exported no history for " + plan["name"])
-        hcfg = harness_cfg(consts, seed, plan.get("codec", "cbor"), plan.get("audit", ""))
+        hcfg = harness_cfg(consts, seed, plan.get("codec", "cbor"), plan.get("audit", ""), plan.get("concurrency", 0))
         t1 = time.time()
         try:
             trace = replay(binpath, scratch, plan["name"], hcfg, scripts, plan.get("mode", "last"),
